@@ -76,3 +76,50 @@ def make_call(c):
     if style == 3 and default_b and default_c:
         return lambda: f(a)
     return lambda: f(a, c=cc, b=b)
+
+
+# ---------------------------------------------------------------- arrays that differ only in memory layout
+
+@cache.function
+def f_arr(a, tag=0):
+    """value and log both depend on the LOGICAL content of the array argument"""
+    import treelog
+    STATE['n'] += 1
+    c = L.canon(a)
+    w = numpy.arange(1, a.size + 1).reshape(a.shape) if a.dtype.kind in 'biuf' and a.size else None
+    treelog.info('array argument {} {} {}'.format(c[1], c[2], c[3]))
+    return ['arr', c, tag, None if w is None else float(numpy.sum(numpy.asarray(a, dtype=float) * w))]
+
+
+def layout_families(rng):
+    """lists of arrays; inside a family members share bytes / values / shapes in every combination:
+    same memory image but other logical order (A vs A.T, (2,3,2) vs transpose(2,1,0)), same logical array in another
+    layout (C vs Fortran copy, strided view, symmetric matrix vs its transpose), same bytes but other shape or dtype,
+    byte-swapped dtype with equal values"""
+    fams = []
+    n = int(rng.integers(2, 5))
+    A = rng.integers(-9, 10, size=(n, n)).astype(['float64', 'int64', 'float32', 'complex128'][int(rng.integers(0, 4))])
+    if (A == A.T).all():
+        A[0, -1] += 1
+    S = A + A.T
+    fams.append([A, A.T, numpy.asfortranarray(A), numpy.asfortranarray(A.T), numpy.ascontiguousarray(A.T), A[::-1], A[:, ::-1], A[::-1, ::-1].T,
+                 S, S.T, numpy.asfortranarray(S), A.ravel(), A.T.ravel(), A.reshape(1, n * n), A.reshape(n * n, 1), A.reshape(n, n, 1), A.T.reshape(1, n, n)])
+    p, q = int(rng.integers(2, 4)), int(rng.integers(2, 5))
+    B = rng.normal(size=(p, q, p))
+    fams.append([B, B.transpose(2, 1, 0), numpy.asfortranarray(B), numpy.asfortranarray(B.transpose(2, 1, 0)), B.transpose(0, 1, 2).copy(),
+                 B.swapaxes(0, 2).copy(), B.reshape(p * q, p), B.reshape(p, q * p), B.reshape(p * q, p).T, B.ravel()])
+    C = rng.integers(0, 100, size=(2, 3))
+    big = numpy.zeros((4, 6), dtype=C.dtype)
+    big[::2, ::2] = C
+    fams.append([C, C.T, C.reshape(3, 2), C.reshape(3, 2).T, numpy.asfortranarray(C), numpy.asfortranarray(C.reshape(3, 2)), big[::2, ::2], big[::2, ::2].T,
+                 numpy.concatenate([C.ravel(), C.ravel()])[:6], numpy.stack([C.ravel(), C.ravel()], 1)[:, 0], C.ravel(), C.ravel()[::-1],
+                 C.astype('>i8'), C.astype('>i8').T, C.astype('<i4'), C.astype('>i4'), C.astype(float), C.astype('>f8'), C.view('uint64'), C.astype('int64').view('float64')])
+    D = rng.random(size=(1, 4)) < .5
+    fams.append([D, D.T, D.reshape(4), D.reshape(2, 2), D.reshape(2, 2).T, D.astype('int8'), D.astype('uint8'), D.astype('int8').T,
+                 numpy.array(True), numpy.array([True]), numpy.array([[True]]), numpy.array(1), numpy.array([1]), numpy.zeros((0, 3)), numpy.zeros((3, 0)), numpy.zeros((0,))])
+    return fams
+
+
+def same_image_other_meaning(a, b):
+    """the pair a regression keyed on the memory image would confuse"""
+    return a.shape == b.shape and a.dtype == b.dtype and a.tobytes('A') == b.tobytes('A') and L.canon(a) != L.canon(b)
